@@ -4,6 +4,8 @@
 import AuthProofs.Ladder
 import AuthProofs.StoreSeq
 import AuthModel.Oidc.Sched
+import AuthProofs.RedisCmd
+import AuthProofs.Discovery
 namespace AuthProps.C09
 open AuthModel AuthModel.Oidc
 
@@ -101,6 +103,57 @@ theorem resurrection_inflight_ok : (s6.2.1.answer.map (·.code)) = some cOK := b
     (known finding C09-refresh-after-logout; the harness replays exactly this schedule on the real handler). -/
 theorem logout_resurrection : probeB.2.1.code = cOK := by decide
 
+/-! ### removal under command-level Redis faults; the end-session URI under endpoint discovery -/
+section FaultsAndDiscovery
+open RedisCmd Redis
+
+/-- REDIS, COMMAND LEVEL: RemoveSession reports success only if its DEL was answered - and then the key is gone. Any
+    failure of the DEL (applied on the server or not) is reported as an error, so the handler (logout_answer) answers
+    the session error and not the logout redirect. -/
+theorem redis_removal_reported_faithfully (now : Int) (fs : List Fault) (h : RHash) :
+    ((run now fs removeP h).faulted = true → (run now fs removeP h).res = false) ∧
+    ((run now fs removeP h).res = true → (run now fs removeP h).state = {}) :=
+  ⟨removeP_strict now fs h, removeP_ok_erases now fs h⟩
+
+/-- ... and nothing is served from a removed key, whatever fails later: a read of the empty key returns no tokens -/
+theorem redis_nothing_after_removal (parses : Str → Bool) (abs idle now now' : Int) (fs fs' : List Fault) (h : RHash)
+    (hok : (run now fs removeP h).res = true) (t : Tokens) :
+    (run now' fs' (getTokP parses abs idle now') (visible now' (run now fs removeP h).state)).res ≠ .ok (some t) := by
+  rw [removeP_ok_erases now fs h hok]
+  intro hc
+  have := (getTokP_sound parses abs idle now' fs' _ t hc).2.1
+  simp [visible] at this
+
+open Discovery in
+/-- DISCOVERED END-SESSION URI. When the handler could be built for a configuration with a logout section, the
+    redirect uri it will answer logouts with (logout_answer) is the configured one if there is one, and otherwise the
+    `end_session_endpoint` of the discovery document - which is then not empty; a configuration that offers neither is
+    refused when the handler is built. -/
+theorem logout_uri_configured_or_discovered (cache cache' : Cache) (c r : DCfg) (ans : FetchAns) (req : Bool)
+    (path uri : Str) (hl : c.logout = some (path, uri)) (h : load cache c ans = (cache', .ok r, req)) :
+    (uri ≠ [] → r.logout = some (path, uri)) ∧
+    (uri = [] → c.configurationUri ≠ [] →
+      ∃ d, lookup cache' c.configurationUri = some d ∧ d.endSessionEndpoint ≠ [] ∧ r.logout = some (path, d.endSessionEndpoint)) := by
+  by_cases hu : c.configurationUri = []
+  · rw [no_discovery cache c ans hu] at h
+    simp only [Prod.mk.injEq, Except.ok.injEq] at h
+    obtain ⟨_, rfl, _⟩ := h
+    exact ⟨fun _ => hl, fun _ hne => absurd hu hne⟩
+  · obtain ⟨d, hc, hp, _⟩ := load_ok cache cache' c r ans req hu h
+    obtain ⟨_, _, _, _, _, hlo⟩ := patch_ok c r d hp
+    obtain ⟨h1, h2⟩ := hlo path uri hl
+    exact ⟨h1, fun he _ => ⟨d, hc, (h2 he).1, (h2 he).2⟩⟩
+
+open Discovery in
+/-- a logout section without redirect uri and a document without `end_session_endpoint`: the handler is not built -/
+theorem discovery_refuses_logout_without_uri (cache : Cache) (c : DCfg) (d : WellKnown) (ans : FetchAns) (path : Str)
+    (hu : c.configurationUri ≠ []) (hl : c.logout = some (path, [])) (he : d.endSessionEndpoint = [])
+    (hdoc : lookup cache c.configurationUri = some d ∨ (lookup cache c.configurationUri = none ∧ ans = .doc d)) :
+    (load cache c ans).2.1 = .error .missingLogoutRedirect := by
+  unfold load getWellKnown
+  rcases hdoc with hc | ⟨hc, rfl⟩ <;> simp [hu, hc, patch, hl, he]
+end FaultsAndDiscovery
+
 end AuthProps.C09
 
 #print axioms AuthProps.C09.logout_answer
@@ -112,3 +165,7 @@ end AuthProps.C09
 #print axioms AuthProps.C09.resurrection_logout_answered
 #print axioms AuthProps.C09.resurrection_inflight_ok
 #print axioms AuthProps.C09.logout_resurrection
+#print axioms AuthProps.C09.redis_removal_reported_faithfully
+#print axioms AuthProps.C09.redis_nothing_after_removal
+#print axioms AuthProps.C09.logout_uri_configured_or_discovered
+#print axioms AuthProps.C09.discovery_refuses_logout_without_uri
